@@ -407,7 +407,8 @@ pub(crate) fn add_str_format<W, R, T>(
             if specs.fill_specs.is_none(){
                 return Ok(a0.into());
             }
-            if let Some(FillSpecs{alignment: Some(Alignment::RightWithSign), ..}) = specs.fill_specs{
+            // `0` (zero padding) without an explicit alignment implies the sign-aware alignment `=` too
+            if let Some(FillSpecs{alignment: Some(Alignment::RightWithSign), ..} | FillSpecs{alignment: None, zero_pad: true, ..}) = specs.fill_specs{
                 return xerr(ManagedXError::new("str cannot be formatted with sign-sensitivity", rt)?);
             }
 
